@@ -56,7 +56,10 @@ def _sample(case, n, seed):
     p = len(case["W"]) if kind != "normal" else len(case["mean"])
     if kind == "normal":
         mean, cov = _law_of(case)
-        dist = must(lib(sempler.NormalDistribution, np.array(X.vto_float(mean)), np.array(X.to_float(cov)).reshape(p, p)), "NormalDistribution")
+        fmean = np.array(X.vto_float(mean))
+        if case.get("int_mean") and all(m.denominator == 1 for m in mean):
+            fmean = np.array([int(m) for m in mean], dtype=np.int64)
+        dist = must(lib(sempler.NormalDistribution, fmean, np.array(X.to_float(cov)).reshape(p, p)), "NormalDistribution")
         return must(lib(dist.sample, n, random_state=seed), "NormalDistribution.sample(%d)" % n)
     dt = case.get("dtypes", {})
     Warr = c01._arr([x for row in case["W"] for x in row], dt.get("W", "float")).reshape(p, p)
@@ -67,6 +70,13 @@ def _sample(case, n, seed):
         for nm, key in (("do", "do_interventions"), ("noise", "noise_interventions"), ("shift", "shift_interventions")):
             if case.get(nm):
                 kwargs[key] = c01._interventions(case[nm], "dict")
+        if case.get("prelude"):
+            # an earlier call on the same model object with almost the same interventions (one mean moved -1 <-> -2)
+            pre = {}
+            for nm, key in (("do", "do_interventions"), ("noise", "noise_interventions"), ("shift", "shift_interventions")):
+                if case["prelude"].get(nm):
+                    pre[key] = c01._interventions(case["prelude"][nm], "dict")
+            must(lib(model.sample, 3, random_state=1, **pre), "LGANM.sample(prelude %r)" % (pre,))
         return must(lib(model.sample, n, random_state=seed, **kwargs), "LGANM.sample(%d, %r)" % (n, kwargs))
     # ANM twin
     Wf = Warr.astype(float)
@@ -247,11 +257,18 @@ def law_case(draw, shape_only=False):
             B[0][0] = 1
         case = {"kind": "normal", "mean": [fstr(Fraction(draw(st.integers(-40, 40)), 4)) for _ in range(p)], "B": B, "d": d}
         if draw(st.integers(0, 2)) == 0:
+            case["mean"] = [draw(st.integers(-9, 9)) for _ in range(p)]
+            case["int_mean"] = True
+        if draw(st.integers(0, 2)) == 0:
             case["cscale"] = [draw(st.sampled_from([0, 0, 5, -7, -10])) for _ in range(p)]
     else:
-        base = draw(c01.law_case(5))
+        base = draw(c01.law_case(5, huge=False))     # huge means next to small variances are not representable as samples
         case = {k: base[k] for k in ("W", "means", "variances", "dtypes", "do", "noise", "shift", "wclass")}
         case["kind"] = kind
+        fu = base.get("followups", [{}])
+        if kind == "lganm" and len(fu) == 2 and fu[0] and any(fu[0].get(nm) for nm in ("do", "noise", "shift")) and \
+                all(set(fu[0].get(nm, {})) == set(case[nm]) for nm in ("do", "noise", "shift")):
+            case["prelude"] = fu[0]
         if kind == "anm":
             # no documented common rule for a target that is both shift- and noise-intervened
             for t in list(case["shift"]):
